@@ -1,0 +1,5 @@
+// Package verifhook carries the instrumentation used by the external
+// model-based verification harness. Everything except this file is guarded by
+// the build tag "verif"; without the tag the package is empty and the hook
+// call sites in the middlewares compile to empty inlinable functions.
+package verifhook
